@@ -1,4 +1,5 @@
 //go:debug randautoseed=0
+//go:debug randseednop=0
 package fsmsim
 
 import (
@@ -11,7 +12,7 @@ var w1Real = []string{"storage/table/fsm (FSM, commands, queries, iterators, bot
 var w1Stub = []string{"Raft library: single-threaded driver honouring the IOnDiskStateMachine contract", "disk: crashfs (vfs.FS with volatile/durable views)", "clock: testing/synctest fake clock"}
 
 func spec(prop, rule string, req ...string) *core.Spec {
-	return &core.Spec{Prop: prop, World: "W1 fsmsim", Gen: Gen(prop), Decode: Decode, Exec: Exec, Rule: rule, Real: w1Real, Stub: w1Stub, RequiredProbes: req,
+	return &core.Spec{Prop: prop, World: "W1 fsmsim", Gen: Gen(prop), Decode: Decode, Exec: Exec, ExecArtifacts: ExecArtifacts, Rule: rule, Real: w1Real, Stub: w1Stub, RequiredProbes: req,
 		Assumptions: []string{"regatta is compiled with go1.26.8 instead of the go1.22 toolchain its go.mod names", "Pebble itself is sound on a strict sync-or-lose disk", "the driver's reading of dragonboat's IOnDiskStateMachine contract (statemachine/disk.go) is correct"}}
 }
 
